@@ -462,6 +462,45 @@ pub fn scoped_cases(sizes: &[usize]) -> Vec<Vec<String>> {
 }
 
 impl ScaleIovecFamily {
+    /// The quick tier: one or two representatives of every regime (about 20 s of model time in all).
+    fn quick_cases() -> Vec<Vec<String>> {
+        let mib = 1usize << 20;
+        let mut cases: Vec<Vec<String>> = vec![
+            snapshot_case(mib, 0, 0, 0, 0, 0, 100),
+            snapshot_case(mib, 0, 1, 2, 1, 1, 1),
+            snapshot_case(mib, 0, 50, 1, 2, 2, 5000),
+            snapshot_case(mib, 2, 1, 0, 3, 0, 100),
+            zero_anchor_case(mib, 0, 300, 0, 0, false),
+            zero_anchor_case(mib, 0, 300, 100, 1, false),
+            zero_anchor_case(mib, 0, 65, 0, 2, true),
+            zero_anchor_case(mib, 2, 300, 0, 0, false),
+            detached_case(mib, 0, 400, 1, 0),
+            exact_fit_case(mib, 0),
+            big_offset_case(1 << 16, -1, 1, 0, 1 << 18, 0),
+            big_offset_case(1 << 16, 0, 2, 1, 1 << 18, 1),
+            big_offset_case(1 << 16, 4096, 3, 2, 1 << 18, 2),
+            big_offset_case(mib, 0, 2, 1, 3 * mib, 0),
+            big_offset_case(mib, -1, 2, 2, 3 * mib, 1),
+            many_slices_case(1024, 0, 65, 0, false),
+            many_slices_case(1025, 2, 66, 0, false),
+            many_slices_case(1025, 1, 67, 3, false),
+            many_slices_case(1100, 0, 70, 2, false),
+            many_slices_case(1100, 1, 68, 4, false),
+            many_slices_case(1025, 0, 69, 1, false),
+            many_slices_case(1100, 0, 71, 5, false),
+            many_backrefs_case(256, true, true),
+            many_backrefs_case(257, false, false),
+            many_anchors_case(257, "clone"),
+        ];
+        for kind in 0..4u64 {
+            cases.push(long_history_case(1100, kind, false));
+        }
+        for c in scoped_cases(&[100, mib]) {
+            cases.push(Self::wrap_scoped(c));
+        }
+        cases
+    }
+
     fn wrap_scoped(ops: Vec<String>) -> Vec<String> {
         // the iovec executor underneath gets something to do as well (its own leak oracle runs at the end)
         let mut v: Vec<String> = vec!["new".into(), "push_copy v0 010203".into()];
@@ -482,6 +521,9 @@ impl Family for ScaleIovecFamily {
 
     fn enumerated(&self, thorough: bool) -> Vec<Vec<String>> {
         let mib = 1usize << 20;
+        if !thorough {
+            return Self::quick_cases();
+        }
         let mut cases: Vec<Vec<String>> = Vec::new();
         // ---- last size class: snapshots, zero-count anchors, detached slices, exact fits
         let chunk_sizes: Vec<usize> = if thorough { vec![mib, 1 << 19, 1 << 16, 1 << 12, 3 * mib] } else { vec![mib] };
@@ -612,7 +654,9 @@ impl Family for ScaleIovecFamily {
             }
             6 => {
                 let n = near_of(rng, &[256usize, 1024, 1024, 1100], 3);
-                many_slices_case(n, rng.below(4), rng.range(65, 90) as usize, rng.below(6), false)
+                // one `push` per slice is cubic for the list model: thorough tier only
+                let build = if thorough { rng.below(4) } else { rng.below(2) };
+                many_slices_case(n, build, rng.range(65, 90) as usize, rng.below(6), false)
             }
             7 => {
                 let n = near_of(rng, &[256usize, 300], 3);
@@ -622,7 +666,7 @@ impl Family for ScaleIovecFamily {
                     many_anchors_case(n, *rng.pick(&["clone", "take"]))
                 }
             }
-            8 => long_history_case(near_of(rng, &[1024usize, 1100, 1500], 3), rng.below(4), false),
+            8 => long_history_case(near_of(rng, if thorough { &[1024usize, 1100, 1500, 4096] } else { &[256usize, 300, 600] }, 3), rng.below(4), false),
             9 => {
                 let mut ops = Vec::new();
                 for _ in 0..rng.range(1, 6) {
